@@ -297,6 +297,8 @@ fn run_check(id: &str, tier: &str) -> i32 {
         slowest: (0, 0, 0),
     });
     let idh = rng::fnv64(id.as_bytes());
+    // selftest: one line "index seed digest" per run, compared across processes and worker counts
+    let digest_log: Option<Mutex<std::fs::File>> = std::env::var("VERIF_DIGEST_LOG").ok().and_then(|p| std::fs::File::create(p).ok()).map(Mutex::new);
     std::thread::scope(|s| {
         for _ in 0..workers {
             s.spawn(|| loop {
@@ -329,9 +331,13 @@ fn run_check(id: &str, tier: &str) -> i32 {
                 if i % 100 == 7 {
                     let again = sc.run_one(seed_r, &env);
                     rechecked = 1;
-                    if again.digest != out.digest {
+                    if again.digest != out.digest && !again.deadline_cut && !out.deadline_cut {
                         nondet = true;
                     }
+                }
+                if let Some(l) = digest_log.as_ref() {
+                    use std::io::Write;
+                    let _ = writeln!(l.lock().unwrap(), "{} {} {:016x}{}", i, seed_r, out.digest, if out.deadline_cut { " cut" } else { "" });
                 }
                 let mut a = agg.lock().unwrap();
                 a.runs += 1;
